@@ -170,7 +170,7 @@ def sign(v):
     non-positive track id."""
     for l in v["body"]:
         t = l.split()
-        if len(t) == 4 and t[0] == "pe.add" and int(t[2]) <= 0:
+        if len(t) == 5 and t[0] == "pe.add" and int(t[2]) <= 0:
             v["signature"] = SIG_NONPOSITIVE
     return v
 
@@ -438,7 +438,9 @@ def gen_ordered_history(rng, nops):
 
 
 def gen_table_history(rng, nops, bad_track_ids=False):
-    """Table-level playlist_entity_table histories (add_back / remove / clear / get_for_list) on lists 1..3."""
+    """Table-level playlist_entity_table histories (add_back / remove / clear / get_for_list) on lists 1..3.
+    Entries come from three databases (uuid tag 0 = the library's own, 1 and 2 = foreign) with deliberately
+    colliding track ids: an entry's identity is (list, database uuid, track id)."""
     ops = ["mkroot c1 %s" % hx("L1"), "mkroot c2 %s" % hx("L2")]
     ents = {1: [], 2: [], 3: []}
     nid = 0
@@ -448,12 +450,16 @@ def gen_table_history(rng, nops, bad_track_ids=False):
         k = r.random()
         if k < 0.5:
             t = r.choice([1, 2, 3, 4, 5, 6, 7, 8, 40]) if not bad_track_ids else r.choice([0, -1, 1, 2, 3])
-            dup = any(x[1] == t for x in ents[l])
+            u = r.choice([0, 0, 0, 1, 1, 2])
+            if ents[l] and r.random() < 0.35:
+                # same numeric track id as an entry already in the list, usually from another database
+                t = r.choice(ents[l])[1]
+            dup = any(x[1] == t and x[2] == u for x in ents[l])
             flag = 1 if r.random() < 0.3 else 0
-            ops.append("pe.add %d %d %d" % (l, t, flag))
+            ops.append("pe.add %d %d %d %d" % (l, t, u, flag))
             if not dup:
                 nid += 1
-                ents[l].append((nid, t))
+                ents[l].append((nid, t, u))
         elif k < 0.8 and ents[l]:
             c = r.random()
             e = ents[l][0] if c < 0.34 else ents[l][-1] if c < 0.67 else ents[l][len(ents[l]) // 2]
